@@ -142,6 +142,15 @@ theorem gen_update_terms {K V : Type} [Add V] [Sub V] [SMul K V] [Add K] [Sub K]
   · right; simp [h, QGen.C10.zetaNext]
   · left; simp [h]
 
+/-- C10.gen_error_value_terms: the four `error_value` expressions of each loop, translated from the source into Lean terms, are what
+`errorValue` computes in the four modes — with `y_prev` as the fourth mode's vector in the backtracking loop and `x_next` in the
+momentum and FISTA loops (as `pgdbStep`, `pgdmLoop`, `fistaLoop` pass it). -/
+theorem gen_error_value_terms {K V : Type} [Add V] [Sub V] [SMul K V] [Add K] [Sub K] [Mul K] [Div K] [Neg K] [Zero K] [One K]
+    [LT K] [DecidableLT K] (f : V → K) (sqrt : K → K) (normSq : V → K) (x xn y : V) :
+    StopMode.all.map (fun m => errorValue m f sqrt normSq x xn y) = QGen.C10.errPgdb f sqrt normSq x xn y ∧
+    StopMode.all.map (fun m => errorValue m f sqrt normSq x xn xn) = QGen.C10.errPgdmFista f sqrt normSq x xn := by
+  constructor <;> rfl
+
 /-- the accepted step of `pgdbStep` is the source's `x_prev + alpha * y_prev` along the source's `y_prev` (generated terms) -/
 theorem gen_pgdb_next_point {K V : Type} [Add V] [Sub V] [SMul K V] [Add K] [Sub K] [Mul K] [Div K] [Neg K] [Zero K] [One K] [LT K]
     [DecidableLT K] (proj : V → V) (f : V → K) (grad : V → V) (dot : V → V → K)
@@ -554,6 +563,27 @@ theorem exact_data_minimiser {m n : Nat} (A : Mat Rat m n) (c : Vec Rat m) (xTru
   have h0 := Drv.seValue_zero_of_residual_zero A c xTrue hexact
   exact ⟨h0, by rw [h0]; exact Drv.seValue_nonneg A c x⟩
 
+/-- C10.weighted_exact_data_minimiser: the same for every weighted squared error with a positive-semidefinite weight matrix `W`
+(all `mode_weight` option sets of the squared-error family whose weights are PSD): under exact data the true parameter attains
+the global minimum `0`. -/
+theorem weighted_exact_data_minimiser {m n : Nat} (A : Mat Rat m n) (c : Vec Rat m) (W : Mat Rat m m)
+    (hW : ∀ v : Vec Rat m, 0 ≤ v.dot (W.mulVec v)) (xTrue : Vec Rat n)
+    (hexact : ∀ i, ((A.mulVec xTrue).add c).get i = 0) (x : Vec Rat n) :
+    Drv.wseValue A c W xTrue = 0 ∧ Drv.wseValue A c W xTrue ≤ Drv.wseValue A c W x := by
+  have h0 : Drv.wseValue A c W xTrue = 0 := by
+    unfold Drv.wseValue
+    simp only [Vec.dot_eq, dotProduct]
+    apply Finset.sum_eq_zero
+    intro i _
+    have : Vec.toV ((A.mulVec xTrue).add c) i = 0 := hexact i
+    rw [this]; ring
+  exact ⟨h0, by rw [h0]; exact hW _⟩
+
+/-- a PSD, non-identity weight and non-trivial data: `W = diag(2, 1/2)`, `A = 1`, exact data of `xTrue = (1, 2)` -/
+example : Drv.wseValue (Mat.one : Mat Rat 2 2) (Vec.ofFn ![(-1 : Rat), -2]) (Mat.ofFn ![![2, 0], ![0, 1 / 2]]) (Vec.ofFn ![1, 2]) = 0 ∧
+    Drv.wseValue (Mat.one : Mat Rat 2 2) (Vec.ofFn ![(-1 : Rat), -2]) (Mat.ofFn ![![2, 0], ![0, 1 / 2]]) (Vec.ofFn ![0, 0]) = 4 := by
+  decide +kernel
+
 section fixed
 variable {K V : Type} [Field K] [LinearOrder K] [IsStrictOrderedRing K] [AddCommGroup V] [Module K V]
 
@@ -663,6 +693,39 @@ theorem fista_result_is_projection (proj : V → V) (f : V → K) (grad : V → 
       | zero => exact ⟨_, rfl⟩
       | succ n => exact ih _ _ _ _ (Nat.succ_pos n)
     · exact ⟨_, rfl⟩
+
+/-- C10.momentum_fista_optimize_result: the same through the `optimize` wrappers as executed by the driver (`pgdmrun`, `fistarun`):
+whenever they return (iteration limit ≥ 1 — for `0` the real code raises and the model gives `none`), the returned point is a
+projection output. -/
+theorem momentum_fista_optimize_result (proj : V → V) (f : V → K) (grad : V → V) (dot : V → V → K) (sqrt : K → K)
+    (mag : V → Int) (gamma c95 delta eps : K) (kcoef : Nat → K) (mode : StopMode) (numHist maxIter : Nat) :
+    (∀ s0 r, pgdmOptimize proj f grad dot sqrt mag gamma c95 eps mode numHist maxIter s0 = some r → ∃ z, r.1.x = proj z) ∧
+    (∀ x0 r, fistaOptimize proj f grad dot sqrt delta eps kcoef mode numHist maxIter x0 = some r → ∃ z, r.1 = proj z) ∧
+    (maxIter = 0 → (∀ s0, pgdmOptimize proj f grad dot sqrt mag gamma c95 eps mode numHist maxIter s0 = none) ∧
+      ∀ x0, fistaOptimize proj f grad dot sqrt delta eps kcoef mode numHist maxIter x0 = none) := by
+  refine ⟨?_, ?_, ?_⟩
+  · intro s0 r h
+    unfold pgdmOptimize at h
+    by_cases hm : maxIter = 0
+    · simp [hm] at h
+    · simp only [hm, if_false, Option.some.injEq] at h
+      subst h
+      exact pgdm_result_is_projection proj f grad dot sqrt mag gamma c95 eps mode numHist maxIter s0 [] (Nat.pos_of_ne_zero hm)
+  · intro x0 r h
+    unfold fistaOptimize at h
+    by_cases hm : maxIter = 0
+    · simp [hm] at h
+    · simp only [hm, if_false, Option.some.injEq] at h
+      subst h
+      exact fista_result_is_projection proj f grad dot sqrt delta eps kcoef mode numHist maxIter 1 x0 x0 []
+        (Nat.pos_of_ne_zero hm)
+  · intro hm
+    exact ⟨fun _ => by simp [pgdmOptimize, hm], fun _ => by simp [fistaOptimize, hm]⟩
+
+example : (fistaOptimize (K := Rat) (V := Rat) (fun z => max z 0) (fun x => (x + 1) * (x + 1)) (fun x => 2 * (x + 1))
+    (fun a b => a * b) (fun v => v) (1 / 4) (1 / 100) (fun k => ((k : Int) - 2 : Int) / ((k : Int) + 1 : Int)) .sumAbsDiffVar 1 30 1).map
+      (fun r => r.1) = some 0 := by
+  decide +kernel
 
 /-- C10.projection_output_feasible: a projection output lies in every set the projection maps into (used with the two
 theorems above and `proj_physical_accuracy`). -/
